@@ -311,6 +311,26 @@ type frame struct {
 	panicV    interface{}
 	visits    map[int]int
 	task      *task
+	cur       ssa.Instruction
+}
+
+type engineBug struct {
+	msg   string
+	trace string
+}
+
+func (fr *frame) trace() string {
+	var sb strings.Builder
+	for f := fr; f != nil; f = f.caller {
+		pos := ""
+		if f.cur != nil {
+			pos = f.m.E.Prog.Fset.Position(f.cur.Pos()).String()
+			sb.WriteString(fmt.Sprintf("  %s: %v  [%s]\n", f.fn.String(), f.cur, pos))
+		} else {
+			sb.WriteString("  " + f.fn.String() + "\n")
+		}
+	}
+	return sb.String()
 }
 
 func (fr *frame) get(v ssa.Value) Value {
@@ -393,7 +413,9 @@ func (m *Machine) ensureInit(p *ssa.Package) {
 		return
 	}
 	saveDepth := m.depth
+	m.inited[p] = false
 	m.callSSA(nil, initFn, nil, nil)
+	m.inited[p] = true
 	m.depth = saveDepth
 }
 
@@ -411,6 +433,16 @@ func (m *Machine) call(caller *frame, fn Value, args []Value, pos token.Pos) Val
 }
 
 func (m *Machine) callSSA(caller *frame, fn *ssa.Function, args []Value, env []Value) Value {
+	if fn.Pkg != nil && fn.Name() == "init" && fn.Synthetic != "" && fn == fn.Pkg.Func("init") {
+		// package initializer reached from another initializer
+		if m.inited[fn.Pkg] && caller != nil {
+			return nil
+		}
+		m.inited[fn.Pkg] = true
+		if !m.E.shouldInit(fn.Pkg) {
+			return nil
+		}
+	}
 	if fn.Parent() == nil {
 		name := fn.String()
 		if o := fn.Origin(); o != nil {
@@ -462,6 +494,11 @@ func (m *Machine) runFrame(fr *frame) {
 		}
 		r := recover()
 		if _, ok := r.(targetPanic); !ok {
+			switch r.(type) {
+			case PathEnd, engineBug:
+			default:
+				r = engineBug{fmt.Sprint(r), fr.trace()}
+			}
 			panic(r) // path end or engine bug: propagate
 		}
 		fr.panicking = true
@@ -511,6 +548,7 @@ func (m *Machine) runFrame(fr *frame) {
 		jumped := false
 		for _, instr := range instrs[np:] {
 			m.Steps++
+			fr.cur = instr
 			if m.Steps > m.Lim.MaxSteps {
 				m.end("bound", fmt.Sprintf("step bound %d exceeded", m.Lim.MaxSteps))
 			}
